@@ -13,17 +13,30 @@
 (***************************************************************************)
 EXTENDS Naturals, FiniteSets, TLC
 
-CONSTANTS MaxGen, Users,
-          GcUnderMutex      \* TRUE = code: listing and discarding are one critical section with warming
+CONSTANTS
+  \* @type: Int;
+  MaxGen,
+  \* @type: Set(Str);
+  Users,
+  \* @type: Bool;
+  GcUnderMutex      \* TRUE = code: listing and discarding are one critical section with warming
 
 VARIABLES
+  \* @type: Int;
   nextGen,
+  \* @type: Set(Int);
   tracked,    \* generation ids alive in the inventory (some Searcher / SearcherInner still references them)
+  \* @type: Int;
   published,  \* generation of the searcher the reader hands out (0: the initial one is never warmed here)
+  \* @type: {st: Str, g: Int};
   reload,     \* the reload in progress: [st: "idle" | "tracked" | "warmed", g]
+  \* @type: Str -> Set(Int);
   held,       \* [Users -> set of generations a user holds a Searcher of]
+  \* @type: Set(Int);
   warmedIds,  \* WarmingStateInner.warmed_generation_ids
+  \* @type: Set(Int);
   wstate,     \* the warmer's own per-generation state (what Warmer::warm built, garbage_collect discards)
+  \* @type: {st: Str, live: Set(Int)};
   gc          \* the GC thread: [st: "idle" | "listed", live]  ("listed" only without the mutex)
 
 vars == <<nextGen, tracked, published, reload, held, warmedIds, wstate, gc>>
@@ -87,6 +100,23 @@ PublishedIsWarmed == published # 0 => published \in wstate
 NeverDiscardHeld == \A u \in Users : held[u] \subseteq wstate
 \* the inventory is exact: held and published generations are tracked
 InventoryExact == \A u \in Users : held[u] \subseteq tracked
+\* Inductive invariant of the code (GcUnderMutex = TRUE), for generations 1..16: checked with Apalache (WarmProtoInd.tla).
+\* Everything somebody can still reach (the published searcher, the reload in progress, held searchers) is tracked, and
+\* what was warmed among it still has its warmer state; the collection never sits between listing and discarding.
+Gens == 1..16
+IndInv ==
+  /\ nextGen \in 1..17 /\ published \in 0..16
+  /\ tracked \in SUBSET Gens /\ warmedIds \in SUBSET Gens /\ wstate \in SUBSET Gens
+  /\ held \in [Users -> SUBSET Gens]
+  /\ reload \in [st : {"idle", "tracked", "warmed"}, g : 0..16]
+  /\ gc = [st |-> "idle", live |-> {}]
+  /\ (reload.st = "idle") <=> (reload.g = 0)
+  /\ \A g \in tracked : g < nextGen
+  /\ published < nextGen /\ reload.g < nextGen
+  /\ published # 0 => (published \in tracked /\ published \in wstate)
+  /\ reload.st # "idle" => reload.g \in tracked
+  /\ reload.st = "warmed" => reload.g \in wstate
+  /\ \A u \in Users : held[u] \subseteq tracked /\ held[u] \subseteq wstate
 \* the state of dropped generations does not pile up for ever
 EventuallyCollected == []<>(wstate \subseteq tracked)
 =============================================================================
